@@ -393,7 +393,7 @@ Definition check_case (c : case) : bool :=
     def distribution(self, pairs):
         d = {'frame': 0, 'validate': 0, 'silent': 0, 'sources': 0, 'images': 0, 'exc': {}, 'empty_ok': 0, 'fallback_lt2': 0,
              'windows>=2': 0, 'nan_columns': 0, 'computed_columns': 0, 'rank1': 0, 'rank2': 0, 'rank3': 0, 'cp_true': 0,
-             'nsrc2': 0, 'validate_outcomes': {}, 'silent_true': 0, 'partly_silent_windows_computed': 0}
+             'nsrc2': 0, 'validate_outcomes': {}, 'silent_true': 0}
         for c, o in pairs:
             d[c['kind']] += 1
             if c['kind'] == 'silent':
